@@ -21,11 +21,11 @@ def _bounds(tier):
     return dict(lru_mc=dict(Keys={1, 2, 3, 4}, Cap=3, MaxOps=7),
                 lru_gen=[dict(Keys={1, 2, 3}, Cap=2, MaxOps=5), dict(Keys={1, 2, 3, 4}, Cap=3, MaxOps=4)],
                 lru_sim=dict(Keys={1, 2, 3, 4}, Cap=2, MaxOps=12), lru_sim_num=4000,
-                lazy=dict(Depth=2, MaxSteps=3, Lits='<- mc_Lits'))
+                lazy=dict(Depth=2, MaxSteps=3, Lits='<- mc_Lits', LitKinds={'int'}, WithKind=False))
   return dict(lru_mc=dict(Keys={1, 2, 3}, Cap=2, MaxOps=6),
               lru_gen=[dict(Keys={1, 2, 3}, Cap=2, MaxOps=4)],
               lru_sim=dict(Keys={1, 2, 3, 4}, Cap=2, MaxOps=12), lru_sim_num=500,
-              lazy=dict(Depth=2, MaxSteps=3, Lits='<- mc_Lits'))
+              lazy=dict(Depth=2, MaxSteps=3, Lits='<- mc_Lits', LitKinds={'int'}, WithKind=False))
 
 
 ALL_OPS = {'make', 'new', 'deref', 'clear'}
@@ -268,22 +268,22 @@ def _cached_pure(e):
   return _cached_pure(e['e'])
 
 
-def _replay_lazy(chk, h):
+def _replay_lazy(chk, h, traced_literals=False):
   from ml_metrics._src.chainables import lazy_fns
   from harness import lazylib
   lazy_fns.clear_cache()
   lazylib.reset()
   e = h['expr']
-  ctx = dict(kind='lazyeval', history=h)
+  ctx = dict(kind='lazyeval', history=h, traced_literals=traced_literals)
   try:
-    expr = lazylib.build(e)
+    expr = lazylib.build(e, traced_literals)
   except Exception as ex:  # pylint: disable=broad-exception-caught
     chk.violation(f'lazy:build:{type(ex).__name__}', f'{ex!r} for {e}', ctx)
     return
   for i, st in enumerate(h['steps']):
     try:
       if st['op'] in ('make', 'makearg'):
-        target = expr if st['op'] == 'make' else lazylib.build(e['args'][st['j'] - 1])
+        target = expr if st['op'] == 'make' else lazylib.build(e['args'][st['j'] - 1], traced_literals)
         if i % 2 == 1:
           target = lazy_fns.pickler.dumps(target)      # serialisation round trip
         try:
@@ -301,7 +301,7 @@ def _replay_lazy(chk, h):
     want = {k: st[k] for k in got}
     if got != want:
       bad = '+'.join(sorted(k for k in want if got[k] != want[k]))
-      cached = 'cached' if '"c": true' in __import__('json').dumps(e) else 'uncached'
+      cached = ('cached' if '"c": true' in __import__('json').dumps(e) else 'uncached') + (':traced-literals' if traced_literals else '')
       chk.violation(f'lazy:{cached}:{bad}', f'step {i} {st["op"]}: got {got} want {want}; expr {e}',
                     dict(ctx, step=i, got=got, want=want))
       return
@@ -318,21 +318,31 @@ def _replay_lazy(chk, h):
 
 
 def _lazy_part(chk, b):
-  consts = b['lazy']
+  # the second instance: one number in its three Python types (1, True, 1.0 - equal, same hash, different literals) and a callee
+  # that observes the type; cache keys are structural, so kind(1), kind(True) and kind(1.0) are three cached calls
+  typed = dict(Depth=2, MaxSteps=2, Lits={1}, LitKinds={'int', 'bool', 'float'}, WithKind=True)
+  # the third: falsy and truthy literals of the three types, every literal also as a lazy value of its own (trace(0), trace(False), ...)
+  falsy = dict(Depth=1, MaxSteps=2, Lits={0, 1}, LitKinds={'int', 'bool', 'float'}, WithKind=True)
+  for label, consts, defs, traced in (('', b['lazy'], dict(mc_Lits='{-1, -2}'), False),      # hash(-1) == hash(-2) in CPython: colliding keys
+                                      ('/typed literals', typed, None, False),
+                                      ('/falsy and traced literals', falsy, None, True)):
+    _lazy_instance(chk, label, consts, defs, traced)
+
+
+def _lazy_instance(chk, label, consts, defs, traced=False):
   invs = ['NoCacheIsEager', 'FirstMakeIsEager', 'CachedIsStable', 'CacheSound']
-  defs = dict(mc_Lits='{-1, -2}')      # hash(-1) == hash(-2) in CPython: structurally different, colliding keys
   mc = tlc.run('remote', 'LazyEval', tlc.cfg_text(constants=consts, invariants=invs, deadlock=False),
                coverage=True, timeout=1800, mc_defs=defs)
-  chk.add_tlc(mc, 'LazyEval/MC')
+  chk.add_tlc(mc, 'LazyEval/MC' + label)
   if not mc.ok:
-    chk.machinery_failure(f'LazyEval.tla violates {mc.error_kind} {mc.error_name}')
-  missing = tlc.require_covered(mc, ['Make', 'MakeArg', 'Clear'])
+    chk.machinery_failure(f'LazyEval.tla{label} violates {mc.error_kind} {mc.error_name}')
+  missing = tlc.require_covered(mc, ['Make', 'Clear'] + (['MakeArg'] if consts['Depth'] > 1 else []))
   if missing:
-    chk.machinery_failure(f'vacuous LazyEval model: {missing}')
+    chk.machinery_failure(f'vacuous LazyEval model{label}: {missing}')
   gen = tlc.run('remote', 'LazyEval', tlc.cfg_text(constants=consts, invariants=['Emit'], deadlock=False),
                 workers=1, timeout=1800, mc_defs=defs)
   if not gen.ok:
-    chk.machinery_failure(f'LazyEval export failed: {gen.error_kind} {gen.error_name}')
+    chk.machinery_failure(f'LazyEval export{label} failed: {gen.error_kind} {gen.error_name}')
   hs = gen.histories
   total = len(hs)
   if chk.tier == 'quick' and len(hs) > 7000:
@@ -348,10 +358,12 @@ def _lazy_part(chk, b):
             and all(s2['op'] == 'make' for s2 in h['steps'])]
     rest = [h for h in hs if not (ncached(h['expr']) >= 2 and all(s2['op'] == 'make' for s2 in h['steps']))]
     hs = keep + random.Random(chk.seed).sample(rest, max(0, min(len(rest), 7000 - len(keep))))
-  chk.count('lazy_behaviours_enumerated', total)
-  chk.count('lazy_behaviours_replayed', len(hs))
+  chk.count('lazy_behaviours_enumerated' + label, total)
+  chk.count('lazy_behaviours_replayed' + label, len(hs))
   for h in hs:
     _replay_lazy(chk, h)
+    if traced:
+      _replay_lazy(chk, h, traced_literals=True)
     chk.replayed()
   chk.add_samples([h for h in hs if h['expr']['t'] == 'call' and h['expr']['c']][1:3])
 
@@ -409,9 +421,50 @@ def mixed_construction(chk):
   lazy_fns.clear_cache()
 
 
+def long_lived_handle(chk):
+  """Lru.tla keys cached objects by an identity that is never reused while the object is held.  A long-lived cached object,
+  dereferenced often enough to stay most recently used, while far more than 2**16 other lazy nodes and short-lived cached objects
+  come and go: every dereference returns the stored object, evicted ones raise the missing-object error, ids never repeat."""
+  from ml_metrics._src.chainables import lazy_fns
+  lazy_fns.clear_cache()
+  lazy_fns.clear_object()
+  n = 70_000 if chk.tier == 'quick' else 300_000
+  held = ['the long-lived object']
+  handle = lazy_fns.LazyObject.new(held)
+  copy_ = lazy_fns.pickler.loads(lazy_fns.pickler.dumps(handle))
+  ids, first = {handle.id}, None
+  ctx = dict(kind='lazy-long-lived-handle', nodes=n)
+  try:
+    for i in range(n):
+      tmp = lazy_fns.LazyObject.new(('tmp', i))
+      first = first or tmp
+      if tmp.id in ids:
+        chk.violation('lazy:ids:reused', f'node {i}: the id of a new cached object repeats the id of an earlier one', ctx)
+        break
+      ids.add(tmp.id)
+      ids.add(lazy_fns.trace(len)(lazy_fns.trace(i % 5)).id)
+      if i % 300 == 0:
+        got = lazy_fns.maybe_make(handle if i % 600 else copy_)
+        if got is not held:
+          chk.violation('lazy:held-object:wrong-value', f'after {i} other nodes the held handle dereferences to {got!r}', ctx)
+          break
+    else:
+      try:
+        v = lazy_fns.maybe_make(first)
+        chk.violation('lazy:evicted-object:stale-value', f'the first short-lived object, long evicted, dereferences to {v!r}', ctx)
+      except lazy_fns.LazyObjectMissingError:
+        pass
+  except Exception as e:  # pylint: disable=broad-exception-caught
+    chk.violation(f'lazy:held-object:exception:{type(e).__name__}', repr(e), ctx)
+  chk.replayed()
+  lazy_fns.clear_cache()
+  lazy_fns.clear_object()
+
+
 def body(chk):
   b = _bounds(chk.tier)
   mixed_construction(chk)
+  long_lived_handle(chk)
   chk.coverage['bounds'] = {k: str(v) for k, v in b.items()}
   _lru_part(chk, b)
   _lazy_part(chk, b)
